@@ -239,6 +239,7 @@ def prepare(tier, seed):
             res = t12.compare(cases, WORK)
             by_id = {c['id']: c for c in cases}
             diffs = []
+            all_diffs = diffs
             regions = {}
             streams = {}
             verdicts = {}
@@ -264,10 +265,32 @@ def prepare(tier, seed):
                            'regions': regions, 'diffs': diffs[:200], 'ndiffs': len(diffs),
                            'distinct_expanded': len(nontrivial), 'samples': samples}
         prep['t3'] = None
+        # escalation: definitions whose expansion differs from the model's are handed to the runtime
+        # harness, so that a broken token-level tie comes with a concrete failing input when there is one
+        suspects = []
+        ill_suspects = []
+        if prep['t12']:
+            groups = {}
+            for dd in sorted(all_diffs, key=lambda x: len(x['text'])):
+                c = by_id[dd['id']]
+                if dd['stream'] == 'mut':
+                    if dd['verdict'] == 'ok' and dd['model_verdict'] != 'ok' and len(ill_suspects) < 12:
+                        ill_suspects.append((c.get('rule', '?'), c['def']))
+                    continue
+                if dd['verdict'] != 'ok' or dd['model_verdict'] != 'ok':
+                    continue
+                g = groups.setdefault((dd['kind'], dd['region']), [])
+                if len(g) < 3:
+                    g.append((dd['feature'], c['def']))
+            for g in groups.values():
+                suspects += g
+            suspects = suspects[:(12 if tier == 'quick' else 40)]
+            prep['t12']['suspects'] = len(suspects)
+            prep['t12']['ill_suspects'] = len(ill_suspects)
         if prep['lean_build_ok']:
             try:
                 import t3
-                prep['t3'] = t3.run(tier, seed, WORK, REPO)
+                prep['t3'] = t3.run(tier, seed, WORK, REPO, suspects=suspects)
             except Exception as ex:   # harness failure: reported, never silently passed
                 import traceback
                 prep['errors'].append('T3 harness failed: ' + traceback.format_exc()[-2000:])
@@ -275,7 +298,7 @@ def prepare(tier, seed):
         if prep['lean_build_ok']:
             try:
                 import t4
-                prep['t4'] = t4.run(tier, seed, WORK, REPO)
+                prep['t4'] = t4.run(tier, seed, WORK, REPO, ill_suspects=ill_suspects)
             except Exception:
                 import traceback
                 prep['errors'].append('T4 harness failed: ' + traceback.format_exc()[-2000:])
@@ -391,6 +414,8 @@ def run_check(pid, tier):
                     violations.append(({'property': pid, 'broken': 'property', 'what': f['what'], 'dsl': f['dsl'],
                                         'feature': f['feature'], 'prefix': f['prefix'], 'ops': f['ops'], 'observed': f['observed'],
                                         'scenario': f['sid'], 'family': f['family'],
+                                        **{k: f[k] for k in ('typed_ops', 'typed_observed', 'twin_dsl', 'twin_kind', 'twin_ops',
+                                                             'twin_observed', 'twin_prefix', 'twin_inv') if k in f},
                                         'replay': f'./check {pid} --replay <this file>'}, True))
                 elif f['property'] == 'HARNESS':
                     violations.append(({'property': pid, 'broken': 'tie', 'tie': 'T3 harness output', 'what': f['what']}, False))
